@@ -4,7 +4,9 @@ import ObiVerif.Driver.Util
 /-! line protocol for C13 (see harness/c13.go):
 
     g <workers> <maxError> <p> <q> <count>:<hexseq> ...             one sample
-    a <workers> <maxError> <p> <q> <hexseq>/<s>=<n>,<s>=<n> ...     several samples, annotations
+    a <workers> <maxError> <p> <q> <hexseq>/<s>=<n>,<s>=<n> ...     several samples, annotations (hook that replays the steps)
+    c <workers> <maxError> <p> <q> <head 0|1> <hexseq>/<s>=<n>,...   several samples through the REAL `CLIOBIClean` (options
+                                                                     --distance, --ratio, --head, workers): the records written
     race <one of the above>                                          same result (the harness replays it under the race detector)
     fact soncount                                                    `synchronised` : the structural fact (every write of SonCount in the
                                                                      two pool functions is under Lock/Unlock or sync/atomic) the model assumes
@@ -125,33 +127,37 @@ def header (ws : List String) : Option (Nat × Config) :=
   | some [w, d, p, q] => if w < 1 ∨ w > 64 ∨ q < 1 ∨ d > 8 then none else some (w, { maxError := d, p := p, q := q })
   | _ => none
 
-def insChar (a : Char) : List Char → List Char
-  | [] => [a]
-  | x :: xs => if a ≤ x then a :: x :: xs else x :: insChar a xs
+def showAnnot (a : Annot) : String :=
+  let nm (n : Nat) : String := String.singleton (Char.ofNat n)
+  s!"{if a.head then 1 else 0}/{a.headCount}/{a.internalCount}/{a.singletonCount}/{a.sampleCount}/" ++
+    ",".intercalate (a.status.map (fun (n, st) => s!"{nm n}={st.str}")) ++ "/" ++
+    ",".intercalate (a.weight.map (fun (n, w) => s!"{nm n}={w}")) ++ "/" ++
+    ",".intercalate (sortStr ((a.mutation.map (fun (k, v) => s!"s{k}={v}")).eraseDups))
+
+def toDb (items : List (Seq × List (Char × Nat))) : List Rec :=
+  items.map (fun it => { seq := it.1, counts := it.2.map (fun kv => (kv.1.toNat, kv.2)) })
+
+/-- the data-set model `cleanDataset` (after the per-sample side checks of `runSample`) -/
+def runDataset (workers : Nat) (cfg : Config) (db : List Rec) : Except String (List Annot) :=
+  match (sampleNames db).mapM (fun name => runSample cfg workers (sampleOf db name)) with
+  | .error e => .error e
+  | .ok _ =>
+    match cleanDataset realKernels cfg db with
+    | none => .error "hang"
+    | some as => .ok as
 
 def runA (workers : Nat) (cfg : Config) (items : List (Seq × List (Char × Nat))) : String :=
-  let names := ((items.flatMap (fun it => it.2.map (·.1))).eraseDups).foldr insChar []
-  let idx := items.zipIdx
-  let perSample : Except String (List (Char × List Out)) := names.mapM (fun name =>
-    let sample : List Node := idx.filterMap (fun (it, i) =>
-      (it.2.find? (fun kv => kv.1 == name)).map (fun kv => ({ orig := i, count := kv.2, seq := it.1 } : Node)))
-    (runSample cfg workers sample).map (fun outs => (name, outs)))
-  match perSample with
+  match runDataset workers cfg (toDb items) with
   | .error e => e
-  | .ok samples =>
-    if idx.isEmpty then "-" else
-    joinSp (idx.map (fun (_, i) =>
-      let mine : List (Char × List Out × Out) := samples.filterMap (fun (name, outs) =>
-        (outs.find? (fun o => o.node.orig == i)).map (fun o => (name, outs, o)))
-      let sts := mine.map (fun (_, _, o) => status o.edges o.sons)
-      let h := (sts.filter (· == .head)).length
-      let it := (sts.filter (· == .internal)).length
-      let sg := (sts.filter (· == .singleton)).length
-      let stS := mine.map (fun (name, _, o) => s!"{name}={(status o.edges o.sons).str}")
-      let wS := mine.map (fun (name, _, o) => s!"{name}={o.weight}")
-      let mS := sortStr ((mine.flatMap (fun (_, outs, o) => showMuts outs o)).eraseDups)
-      s!"{if h + sg > 0 then 1 else 0}/{h}/{it}/{sg}/{h + it + sg}/" ++ ",".intercalate stS ++ "/" ++
-        ",".intercalate wS ++ "/" ++ ",".intercalate mS))
+  | .ok as => if as.isEmpty then "-" else joinSp (as.map showAnnot)
+
+/-- the real `CLIOBIClean` : the records written (all of them, or the heads with `--head`), in output order -/
+def runC (workers : Nat) (cfg : Config) (onlyHead : Bool) (items : List (Seq × List (Char × Nat))) : String :=
+  match runDataset workers cfg (toDb items) with
+  | .error e => e
+  | .ok as =>
+    let out := cliOutput onlyHead as
+    if out.isEmpty then "-" else joinSp (out.map (fun (i, a) => s!"{i}:{showAnnot a}"))
 
 def runWords : List String → String
   | ["fact", "soncount"] => "synchronised"   -- the hypothesis `atomic = true` of `graph_schedule_independent`
@@ -169,6 +175,12 @@ def runWords : List String → String
     match header [w, d, p, q], items.mapM parseA with
     | some (workers, cfg), some items =>
       if items.any (fun it => it.2.any (fun kv => kv.2 == 0)) then "bad-op" else runA workers cfg items
+    | _, _ => "bad-op"
+  | "c" :: w :: d :: p :: q :: h :: items =>
+    match header [w, d, p, q], items.mapM parseA with
+    | some (workers, cfg), some items =>
+      if items.any (fun it => it.2.any (fun kv => kv.2 == 0)) ∨ (h ≠ "0" ∧ h ≠ "1") then "bad-op"
+      else runC workers cfg (h == "1") items
     | _, _ => "bad-op"
   | _ => "bad-op"
 
